@@ -6,7 +6,7 @@
    model refuses (trace inclusion).  The global monitors transcribe C02/C03/C04 on the observed
    execution, without any model state. *)
 From Coq Require Import List NArith Arith Bool.
-From Charon Require Import Common.Quorum Qbft.Model Qbft.Monitor.
+From Charon Require Import Common.Quorum Qbft.Model Qbft.Monitor Qbft.Net.
 Import ListNotations.
 
 Record case := mkcase {
@@ -15,6 +15,7 @@ Record case := mkcase {
   c_fifo : nat;
   c_off : nat;                       (* leader r = (c_off + r) mod c_nodes *)
   c_expect : list nat;               (* processes that must decide in this execution (timely schedules), else [] *)
+  c_cluster : bool;                  (* every process of the trace is a real honest qbft.Run fed only with broadcasts of the others *)
   c_trace : list (nat * label)
 }.
 
@@ -108,7 +109,16 @@ Definition mon3_bad (c : case) : list (nat * (nat * nat)) :=
                      | None => []
                      end) (pids (c_trace c)).
 
+(* Network level: an honest cluster execution must be an execution of Qbft/Net.v (all members honest): every
+   delivered message consists of parts that were broadcast before.  (case, index of the first refused global step) *)
+Definition case_cfg (c : case) : cfg := mkcfg (c_nodes c) (c_fifo c) (lead_rr (c_off c) (c_nodes c)) (fun _ => true).
+Definition net_bad (c : case) : list (nat * nat) :=
+  if c_cluster c then
+    match nrun_first_reject (case_cfg c) net_init (c_trace c) 0 with Some k => [(c_id c, k)] | None => [] end
+  else [].
+
 (* ---- whole case files ---- *)
+Definition all_net (cs : list case) : list (nat * nat) := flat_map net_bad cs.
 Definition all_mon3 (cs : list case) : list (nat * (nat * nat)) := flat_map mon3_bad cs.
 
 Definition all_rejects (cs : list case) : list (nat * (nat * nat)) := flat_map rejects cs.
